@@ -240,7 +240,7 @@ Definition judge_kdecomp (rec : list Z) : Z :=
           else match res with
                | Some (mr, nr, R) =>
                  if negb (mat_eqb R Mc) then 155
-                 else if (p =? 3) && ((kind =? 2) || (((kind =? 3) || (kind =? 4)) && both &&
+                 else if (p =? 3) && ((kind =? 2) || (((kind =? 3) || (kind =? 4) || (kind =? 5)) && both &&
                                                    Nat.leb 4 (length (keep_idx m1 (removed_rows kind true fsr)) + length (keep_idx n1 (removed_cols kind true fsc))) &&
                                                    Nat.leb 4 (length (keep_idx m2 (removed_rows kind false ssr)) + length (keep_idx n2 (removed_cols kind false ssc))))) &&
                          small m n && tu_bf m n M && negb (tu_bf m1 n1 M1 && tu_bf m2 n2 M2) then 156
